@@ -145,3 +145,9 @@ Example C17_pattern_list_nonvacuous :
              matches_any ps (mkLabel ["a"%char] ["u"%char]) = false.
 Proof. eexists; split; [vm_compute; reflexivity | vm_compute; repeat split]. Qed.
 Print Assumptions C17_pattern_list_nonvacuous.
+
+Theorem C17_parsed_label_pattern_exact : forall cur s l l',
+  parse_label cur s = Some l -> lname l <> all_lit ->
+  (matches (pattern_of_label l) l' = true <-> l' = l).
+Proof. exact parsed_label_pattern_exact. Qed.
+Print Assumptions C17_parsed_label_pattern_exact.
